@@ -445,6 +445,15 @@ def insitu(spec, rec, log, rng):
         del log[:]
         from vf.core import CaseTimeout, time_limit
 
+        if i % 5 == 4:
+            try:
+                with time_limit(60):
+                    retry_after_fault(scheme, rng, rec, log, desc)
+            except (Exception, CaseTimeout) as e:  # noqa
+                rec.skip(f"retry-after-fault scenario not applicable: {type(e).__name__}")
+            FAILPOINT["arm"] = None
+            del log[:]
+
         FAILPOINT["calls"] = 0
         FAILPOINT["arm"] = int(rng.integers(1, 60)) if i % 3 == 0 else None
         injected = False
@@ -491,6 +500,50 @@ def insitu(spec, rec, log, rng):
             rec.count("insitu_solves_checked")
         rec.case(("insitu", desc["kind"], desc["residual_function"], desc["n_comp"], desc["irf"], str(desc["linked"])), True, sample=desc,
                  features=[f"insitu|{desc['residual_function']}"])
+
+
+def retry_after_fault(scheme, rng, rec, log, desc):
+    """Evaluate a dataset group at P0, let the linear solver fail part-way through the evaluation at P1, then evaluate at
+    P1 again (what a caller who retries does): every linear solve of the retry must happen and carry its certificate,
+    and the group's penalty must equal a fresh group's at P1."""
+    from glotaran.optimization.optimizer import Optimizer
+
+    opt = Optimizer(scheme, verbose=False, raise_exception=True)
+    p0 = opt._parameters
+    group = opt._optimization_groups[0]
+    FAILPOINT["calls"], FAILPOINT["arm"] = 0, None
+    group.calculate(p0)
+    per_eval = FAILPOINT["calls"]
+    if per_eval < 2:
+        rec.skip("retry-after-fault: fewer than 2 linear solves per evaluation")
+        return
+    labels, x, _, _ = p0.get_label_value_and_bounds_arrays(exclude_non_vary=True)
+    p1 = p0.copy()
+    p1.set_from_label_and_value_arrays(labels, x * (1.0 + 0.05 * rng.uniform(0.5, 1.0, len(x))) + 1e-3)
+    FAILPOINT["calls"], FAILPOINT["arm"] = 0, int(rng.integers(2, per_eval + 1))
+    try:
+        group.calculate(p1)
+        rec.skip("retry-after-fault: fault point not reached")
+        return
+    except RuntimeError as e:
+        if "(injected)" not in str(e):
+            raise
+    FAILPOINT["arm"] = None
+    del log[:]
+    group.calculate(p1)
+    pen = np.array(group.get_full_penalty(), copy=True)
+    prov = [l for l in log if l[0].startswith("provider:")]
+    rec.count("retries_after_solver_fault")
+    ctx = dict(desc, scenario="calculate(P0); calculate(P1) fails at a linear solve; calculate(P1) again")
+    if len(prov) != per_eval:
+        rec.violation("retry-after-fault:solves-missing", ctx, f"the repeated evaluation made {len(prov)} linear solves, a complete evaluation makes {per_eval}")
+        return
+    fresh = Optimizer(scheme, verbose=False, raise_exception=True)._optimization_groups[0]
+    fresh.calculate(p1)
+    pen2 = np.asarray(fresh.get_full_penalty())
+    if pen.shape != pen2.shape or not np.array_equal(pen, pen2, equal_nan=True):
+        d = float(np.nanmax(np.abs(pen - pen2))) if pen.shape == pen2.shape else float("inf")
+        rec.violation("retry-after-fault:penalty-differs-from-fresh-evaluation", ctx, f"max difference {d:.3e} (sizes {pen.size} / {pen2.size})")
 
 
 def replay(case, rec):
